@@ -15,6 +15,8 @@ Line protocol of the secure-session model (domain `sec`).  hex = lower-case hex,
   sec setup <tls> <udp> <mcast> <tunnel> <i|p|r> <- | proto.profile> <inuse chans> <X | trs> <B | M> <nowNs> <msg | -> <back 0|1>
                                                  → status <code> | ok <u|m|t> <a|s> <in 0|1> <out 0|1>
   sec cpick <r|s> <n|u|m|t> <a|s> <h264m0> <tunnel>   → refused | req <u|m|t> <a|s> <keymgmt 0|1>
+  sec cswitch <r|s> <n|u|m|t> <a|s> <events: string of n (no UDP) | 4 (461) | t (answered TCP), - = none>
+                                                 → the SETUP requests of the media, "/"-separated (refused | req <u|m|t> <a|s> <keymgmt>)
   sec cprof <a|s> <a|s>                          → 0 | 1
   sec redirect <r|s> <chain of r|s, - = empty>   → <final r|s> <index of the refused Location | ->
   sec asecure <r|s> <n|u|m|t> <any 0|1>          → 0 | 1
@@ -207,6 +209,16 @@ def mk : IO Handler := do
         | .refused => return "refused"
         | .request p pr km => return s!"req {sp2s p} {pr2s pr} {b2s km}"
       | _, _, _ => return "bad-op"
+    | ["cswitch", sch, cp, mp, evs] =>
+      let evl : Option (List SwitchEv) := if evs == "-" then some [] else evs.toList.mapM fun ch =>
+        if ch == 'n' then some SwitchEv.noUDP else if ch == '4' then some .status461 else if ch == 't' then some .answeredTCP else none
+      match parseSch sch, parseOptSP cp, parsePr mp, evl with
+      | some sch, some cp, some mp, some evl =>
+        let show1 : ClientSetup → String
+          | .refused => "refused"
+          | .request p pr km => s!"req {sp2s p} {pr2s pr} {b2s km}"
+        return "/".intercalate ((clientSessionSetups sch cp mp false false evl).map show1)
+      | _, _, _, _ => return "bad-op"
     | ["cprof", a, b] =>
       match parsePr a, parsePr b with
       | some a, some b => return b2s (clientAcceptsProfile a b)
